@@ -120,7 +120,7 @@ def draw_case(case, ch: Choices):
             n += 1
             s["fault"] = None
             if cfg["faulty"] and ch.chance("cfg.fault", 1, 4):
-                s["fault"] = ch.pick("cfg.faultkind", ["connect_error", "read_timeout", "remote_protocol_error", "write_error", "cancel"])
+                s["fault"] = ch.pick("cfg.faultkind", ["connect_error", "read_timeout", "remote_protocol_error", "write_error", "cancel", "raw_connection_reset", "raw_runtime_error"])
                 if s["fault"] == "cancel" and not cfg["variant"].startswith("a_"):
                     s["fault"] = None          # caller-side cancellation exists for tasks only
     cfg["shared_headers"] = ch.chance("cfg.shared_headers", 1, 4)
@@ -139,6 +139,7 @@ def draw_case(case, ch: Choices):
     cfg["preempt_den"] = ch.pick("cfg.pden", [1, 1, 3, 9])
     cfg["debug_logging"] = ch.chance("cfg.debug_logging", 1, 5)
     cfg["second_client"] = ncallers >= 2 and ch.chance("cfg.second_client", 1, 4)
+    cfg["response_hook"] = ch.chance("cfg.response_hook", 1, 4)       # (a user-supplied http client with a logging hook)
     return cfg
 
 
@@ -151,7 +152,7 @@ def sched_knobs(cfg):
             "start": lambda ch, ci: [0.0, 0.0, 0.5, 5.0][ch.draw("sched.start", 4)],
             "preempt_den": cfg["preempt_den"], "budget": 7200.0, "shared_headers": cfg.get("shared_headers", False),
             "debug_logging": cfg.get("debug_logging", False), "second_client": cfg.get("second_client", False),
-            "user_warnings_as_errors": cfg.get("user_warnings_as_errors", False)}
+            "user_warnings_as_errors": cfg.get("user_warnings_as_errors", False), "response_hook": cfg.get("response_hook", False)}
 
 
 def _nonce_faults(callers):
@@ -436,7 +437,8 @@ def judge(cfg, recs, server, info, res: RunResult, variant, concurrent):
             continue
         if fault:
             want_exc = {"connect_error": "ConnectError", "read_timeout": "ReadTimeout",
-                        "remote_protocol_error": "RemoteProtocolError", "write_error": "WriteError"}[fault]
+                        "remote_protocol_error": "RemoteProtocolError", "write_error": "WriteError",
+                        "raw_connection_reset": "ConnectionResetError", "raw_runtime_error": "RuntimeError"}[fault]
             if oc[0] != "exc" or oc[1] != want_exc:
                 V("fault-outcome", "%s: transport fault %s injected, outcome %r" % (tag, fault, oc[:2]))
             continue
@@ -535,6 +537,8 @@ def run_case(case, ch: Choices) -> RunResult:
     res.bump("runs.faulty" if cfg["faulty"] else "runs.fault_free")
     res.bump("variant." + cfg["variant"])
     res.bump("client_builds_own_transport" if cfg["own_transport"] else "explicit_http_client")
+    if cfg.get("response_hook") and not cfg["own_transport"]:
+        res.bump("env.http_client_with_response_logging_hook")
     if cfg.get("shared_headers"):
         res.bump("runs.caller_shares_one_headers_dict")
         for ci, after in (info.get("shared_headers_after") or {}).items():
